@@ -33,24 +33,11 @@ pub fn twist_cofactor() -> &'static BigUint {
     V.get_or_init(|| (q() + q()) - r())
 }
 
-pub fn two_pow(n: u32) -> BigUint {
-    BigUint::one() << n
-}
-
 pub fn be32(x: &BigUint) -> [u8; 32] {
     let b = x.to_bytes_be();
     assert!(b.len() <= 32, "be32: value does not fit");
     let mut out = [0u8; 32];
     out[32 - b.len()..].copy_from_slice(&b);
-    out
-}
-
-pub fn be_n(x: &BigUint, n: usize) -> Vec<u8> {
-    let b = x.to_bytes_be();
-    let b = if x.is_zero() { vec![] } else { b };
-    assert!(b.len() <= n);
-    let mut out = vec![0u8; n];
-    out[n - b.len()..].copy_from_slice(&b);
     out
 }
 
